@@ -10,7 +10,7 @@ from ..excflow import (ExcClass, _node_of_call, enclosing_handlers, handler_beha
                        primitive_sites, raise_arity, resolve_handler_classes)
 from ..model import AnalysisError, NotConst, Sym, dotted, norm
 from ..strlang import Poison, Str
-from .common import find_calls, guards_of, key_of, mentions, mentions_attr
+from .common import find_calls, guards_of, key_of, mentions, mentions_attr, resolve_locals
 
 EXPLANATION = (
     "Static exception-containment and limit-placement analysis. Scope = every function the call graph reaches from "
@@ -366,8 +366,14 @@ def rule_r4(ctx, rid="C06.R4"):
         else:
             ctx.r.violation(rid, key_of(f, None, "wrong-error-class::" + want), "handler for %s does not store %s" % (sorted(cls), want), f.loc(h.ast))
     # relay of receiver errors: test of <br>.error before <br>.completed
-    et = [n for n in g.nodes if n.kind == "test" and isinstance(n.ast, ast.Attribute) and n.ast.attr == "error" and dotted(n.ast.value) != "self"]
-    ct = [n for n in g.nodes if n.kind == "test" and isinstance(n.ast, ast.Attribute) and n.ast.attr == "completed" and dotted(n.ast.value) != "self"]
+    def _attr_test(n, attr):
+        # `if br.error:` or `e = br.error ... if e:` (a local holding the attribute read)
+        a = n.ast
+        if isinstance(a, ast.Name):
+            a = resolve_locals(f, a) or a
+        return isinstance(a, ast.Attribute) and a.attr == attr and dotted(a.value) != "self"
+    et = [n for n in g.nodes if n.kind == "test" and _attr_test(n, "error")]
+    ct = [n for n in g.nodes if n.kind == "test" and _attr_test(n, "completed")]
     if not et:
         ctx.r.violation(rid, key_of(f, None, "receiver-error-not-relayed"), "the parser never looks at the body receiver's error: a malformed chunked body is accepted", f.loc())
     for c in ct:
